@@ -12,6 +12,10 @@ import subprocess
 ROOT = os.path.dirname(os.path.dirname(os.path.abspath(__file__)))
 
 MAP = [
+    ("PSBTIn.validate refuses a non-witness UTXO for a native witness input", "C11", "p2wsh input described by a full previous transaction instead of a witness UTXO: nothing tied the attached (foreign, 1-of-n) witness script to the UTXO and the PSBT was summarised; partial signatures of such inputs were checked against the legacy digest"),
+    ("PSBTOut.validate accepts a WitnessScript only for a p2wsh or p2sh-p2wsh output", "C11", "change metadata kept while the output became OP_1 <sha256(witness script)> (P2TR shaped, unspendable): still labelled change"),
+    ("PSBTIn.validate requires the two UTXO forms of an input to agree", "C11", "input carrying both a previous transaction and a contradicting witness UTXO amount: the last record won and the fee of the summary was wrong"),
+    ("RedeemScript.get_quorum requires OP_n to state the number of pubkeys", "C11", "p2sh change script OP_m <cosigner keys> OP_RETURN CHECKMULTISIG (anything in the OP_n slot) was labelled change"),
     ("a named extended key parsed from a PSBT keeps the network of its version bytes", "C10", "testnet PSBT with tpubs at a path without coin type (m/45'/0): parse without a network argument guessed mainnet from the path and re-serialised the global xpubs as xpub: serialize -> parse -> serialize changed the bytes"),
     ("create_multisig_psbt keys the global xpubs like the parser does", "C10", "combining the builder's PSBT object with a parsed (signed) copy wrote every PSBT_GLOBAL_XPUB twice (duplicate keys; re-serialisation of the result differed)"),
     ("decode_bech32 requires the separator after the regtest prefix", "C09", "bcrt!q..., bcrtxq... decoded like bcrt1q...: a second string for the same script"),
